@@ -85,6 +85,8 @@ impl<const N: usize> AntiAmplifier<N> {
             )
             .is_ok()
         {
+            #[cfg(gmquic_verif)]
+            aa_verif::emit(self.verif_id(), Self::GRANTED);
             self.tx_waker.wake_by(Signals::CREDIT);
         }
     }
@@ -100,8 +102,48 @@ impl<const N: usize> AntiAmplifier<N> {
             )
             .is_ok()
         {
+            #[cfg(gmquic_verif)]
+            aa_verif::emit(self.verif_id(), Self::ABORTED);
             self.tx_waker.wake_by(Signals::CREDIT);
         }
+    }
+}
+
+/// Verification hooks (compiled only with `--cfg gmquic_verif`; read-only / observe-only).
+#[cfg(gmquic_verif)]
+pub mod aa_verif {
+    use std::sync::OnceLock;
+
+    type Observer = Box<dyn Fn(usize, u8) + Send + Sync>;
+    static OBSERVER: OnceLock<Observer> = OnceLock::new();
+
+    /// Install a process-wide observer called as `(id, new_state)` right after a successful
+    /// NORMAL -> GRANTED (1) / NORMAL -> ABORTED (2) transition; `id` is
+    /// [`AntiAmplifier::verif_id`](super::AntiAmplifier::verif_id).
+    pub fn set_observer(f: impl Fn(usize, u8) + Send + Sync + 'static) -> bool {
+        OBSERVER.set(Box::new(f)).is_ok()
+    }
+
+    pub(super) fn emit(id: usize, new_state: u8) {
+        if let Some(f) = OBSERVER.get() {
+            f(id, new_state);
+        }
+    }
+}
+
+#[cfg(gmquic_verif)]
+impl<const N: usize> AntiAmplifier<N> {
+    /// Verification hook (read-only): `(credit, state)`; state 0 = NORMAL, 1 = GRANTED, 2 = ABORTED.
+    pub fn verif_state(&self) -> (usize, u8) {
+        (
+            self.credit.load(Ordering::Acquire),
+            self.state.load(Ordering::Acquire),
+        )
+    }
+
+    /// Verification hook: identity of this instance for [`aa_verif::set_observer`].
+    pub fn verif_id(&self) -> usize {
+        self as *const Self as usize
     }
 }
 
